@@ -261,3 +261,38 @@ package document
 //@   invariant xmlPos() >= old(xmlPos())
 //@   invariant forall s int :: {xmlTok(s)} old(xmlPos()) <= s && s < xmlPos() ==> !isDocStart(s)
 //@   decreases xmlRem()
+
+// parseParagraphBorder (added with the repair of the dropped w:pBdr): called right behind the <w:pBdr> start tag, consumes exactly
+// that element; every child is skipped whole after its attributes have been read.
+//@ func (*Document).parseParagraphBorder
+//@ props C06, C03
+//@ wf ParagraphBorder.Top, ParagraphBorder.Left, ParagraphBorder.Bottom, ParagraphBorder.Right
+//@ requires d != nil && decoder != nil
+//@ requires xmlPos() >= 1 && tokIsStart(xmlPos() - 1) && tokLocal(xmlPos() - 1) == "pBdr"
+//@ ensures xmlRem() <= old(xmlRem())
+//@ ensures old(d.Body) != nil ==> d.Body != nil
+//@ ensures old(d.Body) != nil && old(elemsOK(d.Body.Elements)) ==> elemsOK(d.Body.Elements)
+//@ ensures d.Body == old(d.Body) && len(d.Body.Elements) == old(len(d.Body.Elements)) && (forall j int :: 0 <= j && j < len(d.Body.Elements) ==> d.Body.Elements[j] == old(d.Body.Elements[j]))
+//@ ensures err == nil ==> result0 != nil
+//@ ensures xmlPos() >= old(xmlPos())
+//@ ensures err == nil ==> xmlPos() > old(xmlPos()) && tokIsEnd(xmlPos() - 1) && xmlDepth(xmlPos()) == old(xmlDepth(xmlPos())) - 1
+//@ ensures err == nil ==> forall k int :: {xmlDepth(k)} old(xmlPos()) <= k && k < xmlPos() ==> xmlDepth(k) >= old(xmlDepth(xmlPos()))
+//@ ensures err == nil ==> xmlOpen(xmlPos() - 1) == old(xmlPos()) - 1
+//@ ensures err == nil ==> bdrLine(result0.Top, lastKid(old(xmlPos()), xmlPos() - 1, "top"))
+//@ ensures err == nil ==> bdrLine(result0.Left, lastKid(old(xmlPos()), xmlPos() - 1, "left"))
+//@ ensures err == nil ==> bdrLine(result0.Bottom, lastKid(old(xmlPos()), xmlPos() - 1, "bottom"))
+//@ ensures err == nil ==> bdrLine(result0.Right, lastKid(old(xmlPos()), xmlPos() - 1, "right"))
+//@ loop 1
+//@   invariant xmlRem() <= old(xmlRem())
+//@   invariant old(d.Body) != nil ==> d.Body != nil
+//@   invariant old(d.Body) != nil && old(elemsOK(d.Body.Elements)) ==> elemsOK(d.Body.Elements)
+//@   invariant d.Body == old(d.Body) && len(d.Body.Elements) == old(len(d.Body.Elements)) && (forall j int :: 0 <= j && j < len(d.Body.Elements) ==> d.Body.Elements[j] == old(d.Body.Elements[j]))
+//@   invariant border != nil && fresh(border)
+//@   invariant xmlPos() >= old(xmlPos()) && xmlDepth(xmlPos()) == old(xmlDepth(xmlPos()))
+//@   invariant forall k int :: {xmlDepth(k)} old(xmlPos()) <= k && k < xmlPos() ==> xmlDepth(k) >= old(xmlDepth(xmlPos()))
+//@   invariant bdrLine(border.Top, lastKid(old(xmlPos()), xmlPos(), "top"))
+//@   invariant bdrLine(border.Left, lastKid(old(xmlPos()), xmlPos(), "left"))
+//@   invariant bdrLine(border.Bottom, lastKid(old(xmlPos()), xmlPos(), "bottom"))
+//@   invariant bdrLine(border.Right, lastKid(old(xmlPos()), xmlPos(), "right"))
+//@   decreases xmlRem()
+//@ spec bdrLine(l *ParagraphBorderLine, k int) bool = ite(k < 0, l == nil, l != nil && l.Val == av(k, "val") && l.Color == av(k, "color") && l.Sz == av(k, "sz") && l.Space == av(k, "space"))
